@@ -171,3 +171,171 @@ package main
 //@     decreases opts.SFlowMirrorWorkers - w
 //@   loop 2
 //@     invariant opts != nil && opts == old(opts) && mirrorMsgsSF(ch) && mirrorMsgsSF(ch4) && mirrorMsgsSF(ch6)
+
+// ---- configuration precedence (C17) --------------------------------------------------------------------
+// >>> generated by `govc -gen-options` from type Options and flagSet; do not edit by hand
+// sources of a setting: the command line (by flag name), the configuration file and the environment (by yaml key)
+//@ uninterp cliHas(key string) bool
+//@ uninterp cliB(key string) bool
+//@ uninterp cliI(key string) int
+//@ uninterp cliS(key string) string
+//@ uninterp fileHas(key string) bool
+//@ uninterp fileB(key string) bool
+//@ uninterp fileI(key string) int
+//@ uninterp fileS(key string) string
+//@ uninterp envHas(key string) bool
+//@ uninterp envB(key string) bool
+//@ uninterp envI(key string) int
+//@ uninterp envS(key string) string
+
+// getEnv: VFLOW_<KEY> (upper-cased yaml key, '-' -> '_') replaces the current value (reflection: trusted, bounded check in the thorough tier)
+//@ func (*Options).getEnv
+//@   opt noverify reflection over the struct fields
+//@   ensures [trusted.Verbose] opts.Verbose == (envHas("verbose") ? envB("verbose") : old(opts.Verbose))
+//@   ensures [trusted.LogFile] opts.LogFile == (envHas("log-file") ? envS("log-file") : old(opts.LogFile))
+//@   ensures [trusted.PIDFile] opts.PIDFile == (envHas("pid-file") ? envS("pid-file") : old(opts.PIDFile))
+//@   ensures [trusted.CPUCap] opts.CPUCap == (envHas("cpu-cap") ? envS("cpu-cap") : old(opts.CPUCap))
+//@   ensures [trusted.DynWorkers] opts.DynWorkers == (envHas("dynamic-workers") ? envB("dynamic-workers") : old(opts.DynWorkers))
+//@   ensures [trusted.StatsEnabled] opts.StatsEnabled == (envHas("stats-enabled") ? envB("stats-enabled") : old(opts.StatsEnabled))
+//@   ensures [trusted.StatsFormat] opts.StatsFormat == (envHas("stats-format") ? envS("stats-format") : old(opts.StatsFormat))
+//@   ensures [trusted.StatsHTTPAddr] opts.StatsHTTPAddr == (envHas("stats-http-addr") ? envS("stats-http-addr") : old(opts.StatsHTTPAddr))
+//@   ensures [trusted.StatsHTTPPort] opts.StatsHTTPPort == (envHas("stats-http-port") ? envS("stats-http-port") : old(opts.StatsHTTPPort))
+//@   ensures [trusted.SFlowEnabled] opts.SFlowEnabled == (envHas("sflow-enabled") ? envB("sflow-enabled") : old(opts.SFlowEnabled))
+//@   ensures [trusted.SFlowPort] opts.SFlowPort == (envHas("sflow-port") ? envI("sflow-port") : old(opts.SFlowPort))
+//@   ensures [trusted.SFlowAddr] opts.SFlowAddr == (envHas("sflow-addr") ? envS("sflow-addr") : old(opts.SFlowAddr))
+//@   ensures [trusted.SFlowUDPSize] opts.SFlowUDPSize == (envHas("sflow-udp-size") ? envI("sflow-udp-size") : old(opts.SFlowUDPSize))
+//@   ensures [trusted.SFlowWorkers] opts.SFlowWorkers == (envHas("sflow-workers") ? envI("sflow-workers") : old(opts.SFlowWorkers))
+//@   ensures [trusted.SFlowTopic] opts.SFlowTopic == (envHas("sflow-topic") ? envS("sflow-topic") : old(opts.SFlowTopic))
+//@   ensures [trusted.SFlowMirrorAddr] opts.SFlowMirrorAddr == (envHas("sflow-mirror-addr") ? envS("sflow-mirror-addr") : old(opts.SFlowMirrorAddr))
+//@   ensures [trusted.SFlowMirrorPort] opts.SFlowMirrorPort == (envHas("sflow-mirror-port") ? envI("sflow-mirror-port") : old(opts.SFlowMirrorPort))
+//@   ensures [trusted.SFlowMirrorWorkers] opts.SFlowMirrorWorkers == (envHas("sflow-mirror-workers") ? envI("sflow-mirror-workers") : old(opts.SFlowMirrorWorkers))
+//@   ensures [trusted.IPFIXEnabled] opts.IPFIXEnabled == (envHas("ipfix-enabled") ? envB("ipfix-enabled") : old(opts.IPFIXEnabled))
+//@   ensures [trusted.IPFIXRPCEnabled] opts.IPFIXRPCEnabled == (envHas("ipfix-rpc-enabled") ? envB("ipfix-rpc-enabled") : old(opts.IPFIXRPCEnabled))
+//@   ensures [trusted.IPFIXPort] opts.IPFIXPort == (envHas("ipfix-port") ? envI("ipfix-port") : old(opts.IPFIXPort))
+//@   ensures [trusted.IPFIXAddr] opts.IPFIXAddr == (envHas("ipfix-addr") ? envS("ipfix-addr") : old(opts.IPFIXAddr))
+//@   ensures [trusted.IPFIXUDPSize] opts.IPFIXUDPSize == (envHas("ipfix-udp-size") ? envI("ipfix-udp-size") : old(opts.IPFIXUDPSize))
+//@   ensures [trusted.IPFIXWorkers] opts.IPFIXWorkers == (envHas("ipfix-workers") ? envI("ipfix-workers") : old(opts.IPFIXWorkers))
+//@   ensures [trusted.IPFIXTopic] opts.IPFIXTopic == (envHas("ipfix-topic") ? envS("ipfix-topic") : old(opts.IPFIXTopic))
+//@   ensures [trusted.IPFIXMirrorAddr] opts.IPFIXMirrorAddr == (envHas("ipfix-mirror-addr") ? envS("ipfix-mirror-addr") : old(opts.IPFIXMirrorAddr))
+//@   ensures [trusted.IPFIXMirrorPort] opts.IPFIXMirrorPort == (envHas("ipfix-mirror-port") ? envI("ipfix-mirror-port") : old(opts.IPFIXMirrorPort))
+//@   ensures [trusted.IPFIXMirrorWorkers] opts.IPFIXMirrorWorkers == (envHas("ipfix-mirror-workers") ? envI("ipfix-mirror-workers") : old(opts.IPFIXMirrorWorkers))
+//@   ensures [trusted.IPFIXTplCacheFile] opts.IPFIXTplCacheFile == (envHas("ipfix-tpl-cache-file") ? envS("ipfix-tpl-cache-file") : old(opts.IPFIXTplCacheFile))
+//@   ensures [trusted.NetflowV5Enabled] opts.NetflowV5Enabled == (envHas("netflow5-enabled") ? envB("netflow5-enabled") : old(opts.NetflowV5Enabled))
+//@   ensures [trusted.NetflowV5Port] opts.NetflowV5Port == (envHas("netflow5-port") ? envI("netflow5-port") : old(opts.NetflowV5Port))
+//@   ensures [trusted.NetflowV5Addr] opts.NetflowV5Addr == (envHas("netflow5-addr") ? envS("netflow5-addr") : old(opts.NetflowV5Addr))
+//@   ensures [trusted.NetflowV5UDPSize] opts.NetflowV5UDPSize == (envHas("netflow5-udp-size") ? envI("netflow5-udp-size") : old(opts.NetflowV5UDPSize))
+//@   ensures [trusted.NetflowV5Workers] opts.NetflowV5Workers == (envHas("netflow5-workers") ? envI("netflow5-workers") : old(opts.NetflowV5Workers))
+//@   ensures [trusted.NetflowV5Topic] opts.NetflowV5Topic == (envHas("netflow5-topic") ? envS("netflow5-topic") : old(opts.NetflowV5Topic))
+//@   ensures [trusted.NetflowV9Enabled] opts.NetflowV9Enabled == (envHas("netflow9-enabled") ? envB("netflow9-enabled") : old(opts.NetflowV9Enabled))
+//@   ensures [trusted.NetflowV9Port] opts.NetflowV9Port == (envHas("netflow9-port") ? envI("netflow9-port") : old(opts.NetflowV9Port))
+//@   ensures [trusted.NetflowV9Addr] opts.NetflowV9Addr == (envHas("netflow9-addr") ? envS("netflow9-addr") : old(opts.NetflowV9Addr))
+//@   ensures [trusted.NetflowV9UDPSize] opts.NetflowV9UDPSize == (envHas("netflow9-udp-size") ? envI("netflow9-udp-size") : old(opts.NetflowV9UDPSize))
+//@   ensures [trusted.NetflowV9Workers] opts.NetflowV9Workers == (envHas("netflow9-workers") ? envI("netflow9-workers") : old(opts.NetflowV9Workers))
+//@   ensures [trusted.NetflowV9Topic] opts.NetflowV9Topic == (envHas("netflow9-topic") ? envS("netflow9-topic") : old(opts.NetflowV9Topic))
+//@   ensures [trusted.NetflowV9TplCacheFile] opts.NetflowV9TplCacheFile == (envHas("netflow9-tpl-cache-file") ? envS("netflow9-tpl-cache-file") : old(opts.NetflowV9TplCacheFile))
+//@   ensures [trusted.ProducerEnabled] opts.ProducerEnabled == (envHas("producer-enabled") ? envB("producer-enabled") : old(opts.ProducerEnabled))
+//@   ensures [trusted.MQName] opts.MQName == (envHas("mq-name") ? envS("mq-name") : old(opts.MQName))
+//@   ensures [trusted.MQConfigFile] opts.MQConfigFile == (envHas("mq-config-file") ? envS("mq-config-file") : old(opts.MQConfigFile))
+//@   modifies opts
+
+// loadCfg: a key present in the configuration file replaces the current value (yaml.Unmarshal: trusted)
+//@ func (*Options).loadCfg
+//@   opt noverify yaml.Unmarshal into the struct
+//@   ensures [trusted.Verbose] opts.Verbose == (fileHas("verbose") ? fileB("verbose") : old(opts.Verbose))
+//@   ensures [trusted.LogFile] opts.LogFile == (fileHas("log-file") ? fileS("log-file") : old(opts.LogFile))
+//@   ensures [trusted.PIDFile] opts.PIDFile == (fileHas("pid-file") ? fileS("pid-file") : old(opts.PIDFile))
+//@   ensures [trusted.CPUCap] opts.CPUCap == (fileHas("cpu-cap") ? fileS("cpu-cap") : old(opts.CPUCap))
+//@   ensures [trusted.DynWorkers] opts.DynWorkers == (fileHas("dynamic-workers") ? fileB("dynamic-workers") : old(opts.DynWorkers))
+//@   ensures [trusted.StatsEnabled] opts.StatsEnabled == (fileHas("stats-enabled") ? fileB("stats-enabled") : old(opts.StatsEnabled))
+//@   ensures [trusted.StatsFormat] opts.StatsFormat == (fileHas("stats-format") ? fileS("stats-format") : old(opts.StatsFormat))
+//@   ensures [trusted.StatsHTTPAddr] opts.StatsHTTPAddr == (fileHas("stats-http-addr") ? fileS("stats-http-addr") : old(opts.StatsHTTPAddr))
+//@   ensures [trusted.StatsHTTPPort] opts.StatsHTTPPort == (fileHas("stats-http-port") ? fileS("stats-http-port") : old(opts.StatsHTTPPort))
+//@   ensures [trusted.SFlowEnabled] opts.SFlowEnabled == (fileHas("sflow-enabled") ? fileB("sflow-enabled") : old(opts.SFlowEnabled))
+//@   ensures [trusted.SFlowPort] opts.SFlowPort == (fileHas("sflow-port") ? fileI("sflow-port") : old(opts.SFlowPort))
+//@   ensures [trusted.SFlowAddr] opts.SFlowAddr == (fileHas("sflow-addr") ? fileS("sflow-addr") : old(opts.SFlowAddr))
+//@   ensures [trusted.SFlowUDPSize] opts.SFlowUDPSize == (fileHas("sflow-udp-size") ? fileI("sflow-udp-size") : old(opts.SFlowUDPSize))
+//@   ensures [trusted.SFlowWorkers] opts.SFlowWorkers == (fileHas("sflow-workers") ? fileI("sflow-workers") : old(opts.SFlowWorkers))
+//@   ensures [trusted.SFlowTopic] opts.SFlowTopic == (fileHas("sflow-topic") ? fileS("sflow-topic") : old(opts.SFlowTopic))
+//@   ensures [trusted.SFlowMirrorAddr] opts.SFlowMirrorAddr == (fileHas("sflow-mirror-addr") ? fileS("sflow-mirror-addr") : old(opts.SFlowMirrorAddr))
+//@   ensures [trusted.SFlowMirrorPort] opts.SFlowMirrorPort == (fileHas("sflow-mirror-port") ? fileI("sflow-mirror-port") : old(opts.SFlowMirrorPort))
+//@   ensures [trusted.SFlowMirrorWorkers] opts.SFlowMirrorWorkers == (fileHas("sflow-mirror-workers") ? fileI("sflow-mirror-workers") : old(opts.SFlowMirrorWorkers))
+//@   ensures [trusted.IPFIXEnabled] opts.IPFIXEnabled == (fileHas("ipfix-enabled") ? fileB("ipfix-enabled") : old(opts.IPFIXEnabled))
+//@   ensures [trusted.IPFIXRPCEnabled] opts.IPFIXRPCEnabled == (fileHas("ipfix-rpc-enabled") ? fileB("ipfix-rpc-enabled") : old(opts.IPFIXRPCEnabled))
+//@   ensures [trusted.IPFIXPort] opts.IPFIXPort == (fileHas("ipfix-port") ? fileI("ipfix-port") : old(opts.IPFIXPort))
+//@   ensures [trusted.IPFIXAddr] opts.IPFIXAddr == (fileHas("ipfix-addr") ? fileS("ipfix-addr") : old(opts.IPFIXAddr))
+//@   ensures [trusted.IPFIXUDPSize] opts.IPFIXUDPSize == (fileHas("ipfix-udp-size") ? fileI("ipfix-udp-size") : old(opts.IPFIXUDPSize))
+//@   ensures [trusted.IPFIXWorkers] opts.IPFIXWorkers == (fileHas("ipfix-workers") ? fileI("ipfix-workers") : old(opts.IPFIXWorkers))
+//@   ensures [trusted.IPFIXTopic] opts.IPFIXTopic == (fileHas("ipfix-topic") ? fileS("ipfix-topic") : old(opts.IPFIXTopic))
+//@   ensures [trusted.IPFIXMirrorAddr] opts.IPFIXMirrorAddr == (fileHas("ipfix-mirror-addr") ? fileS("ipfix-mirror-addr") : old(opts.IPFIXMirrorAddr))
+//@   ensures [trusted.IPFIXMirrorPort] opts.IPFIXMirrorPort == (fileHas("ipfix-mirror-port") ? fileI("ipfix-mirror-port") : old(opts.IPFIXMirrorPort))
+//@   ensures [trusted.IPFIXMirrorWorkers] opts.IPFIXMirrorWorkers == (fileHas("ipfix-mirror-workers") ? fileI("ipfix-mirror-workers") : old(opts.IPFIXMirrorWorkers))
+//@   ensures [trusted.IPFIXTplCacheFile] opts.IPFIXTplCacheFile == (fileHas("ipfix-tpl-cache-file") ? fileS("ipfix-tpl-cache-file") : old(opts.IPFIXTplCacheFile))
+//@   ensures [trusted.NetflowV5Enabled] opts.NetflowV5Enabled == (fileHas("netflow5-enabled") ? fileB("netflow5-enabled") : old(opts.NetflowV5Enabled))
+//@   ensures [trusted.NetflowV5Port] opts.NetflowV5Port == (fileHas("netflow5-port") ? fileI("netflow5-port") : old(opts.NetflowV5Port))
+//@   ensures [trusted.NetflowV5Addr] opts.NetflowV5Addr == (fileHas("netflow5-addr") ? fileS("netflow5-addr") : old(opts.NetflowV5Addr))
+//@   ensures [trusted.NetflowV5UDPSize] opts.NetflowV5UDPSize == (fileHas("netflow5-udp-size") ? fileI("netflow5-udp-size") : old(opts.NetflowV5UDPSize))
+//@   ensures [trusted.NetflowV5Workers] opts.NetflowV5Workers == (fileHas("netflow5-workers") ? fileI("netflow5-workers") : old(opts.NetflowV5Workers))
+//@   ensures [trusted.NetflowV5Topic] opts.NetflowV5Topic == (fileHas("netflow5-topic") ? fileS("netflow5-topic") : old(opts.NetflowV5Topic))
+//@   ensures [trusted.NetflowV9Enabled] opts.NetflowV9Enabled == (fileHas("netflow9-enabled") ? fileB("netflow9-enabled") : old(opts.NetflowV9Enabled))
+//@   ensures [trusted.NetflowV9Port] opts.NetflowV9Port == (fileHas("netflow9-port") ? fileI("netflow9-port") : old(opts.NetflowV9Port))
+//@   ensures [trusted.NetflowV9Addr] opts.NetflowV9Addr == (fileHas("netflow9-addr") ? fileS("netflow9-addr") : old(opts.NetflowV9Addr))
+//@   ensures [trusted.NetflowV9UDPSize] opts.NetflowV9UDPSize == (fileHas("netflow9-udp-size") ? fileI("netflow9-udp-size") : old(opts.NetflowV9UDPSize))
+//@   ensures [trusted.NetflowV9Workers] opts.NetflowV9Workers == (fileHas("netflow9-workers") ? fileI("netflow9-workers") : old(opts.NetflowV9Workers))
+//@   ensures [trusted.NetflowV9Topic] opts.NetflowV9Topic == (fileHas("netflow9-topic") ? fileS("netflow9-topic") : old(opts.NetflowV9Topic))
+//@   ensures [trusted.NetflowV9TplCacheFile] opts.NetflowV9TplCacheFile == (fileHas("netflow9-tpl-cache-file") ? fileS("netflow9-tpl-cache-file") : old(opts.NetflowV9TplCacheFile))
+//@   ensures [trusted.ProducerEnabled] opts.ProducerEnabled == (fileHas("producer-enabled") ? fileB("producer-enabled") : old(opts.ProducerEnabled))
+//@   ensures [trusted.MQName] opts.MQName == (fileHas("mq-name") ? fileS("mq-name") : old(opts.MQName))
+//@   ensures [trusted.MQConfigFile] opts.MQConfigFile == (fileHas("mq-config-file") ? fileS("mq-config-file") : old(opts.MQConfigFile))
+//@   modifies opts
+
+// flagSet: command line > configuration file > environment > built-in default, for every registered setting
+//@ func (*Options).flagSet
+//@   exitassert [Verbose] opts.Verbose == (cliHas("verbose") ? cliB("verbose") : (fileHas("verbose") ? fileB("verbose") : (envHas("verbose") ? envB("verbose") : old(opts.Verbose))))
+//@   exitassert [LogFile] opts.LogFile == (cliHas("log-file") ? cliS("log-file") : (fileHas("log-file") ? fileS("log-file") : (envHas("log-file") ? envS("log-file") : old(opts.LogFile))))
+//@   exitassert [PIDFile] opts.PIDFile == (cliHas("pid-file") ? cliS("pid-file") : (fileHas("pid-file") ? fileS("pid-file") : (envHas("pid-file") ? envS("pid-file") : old(opts.PIDFile))))
+//@   exitassert [CPUCap] opts.CPUCap == (cliHas("cpu-cap") ? cliS("cpu-cap") : (fileHas("cpu-cap") ? fileS("cpu-cap") : (envHas("cpu-cap") ? envS("cpu-cap") : old(opts.CPUCap))))
+//@   exitassert [DynWorkers] opts.DynWorkers == (cliHas("dynamic-workers") ? cliB("dynamic-workers") : (fileHas("dynamic-workers") ? fileB("dynamic-workers") : (envHas("dynamic-workers") ? envB("dynamic-workers") : old(opts.DynWorkers))))
+//@   exitassert [StatsEnabled] opts.StatsEnabled == (cliHas("stats-enabled") ? cliB("stats-enabled") : (fileHas("stats-enabled") ? fileB("stats-enabled") : (envHas("stats-enabled") ? envB("stats-enabled") : old(opts.StatsEnabled))))
+//@   exitassert [StatsFormat] opts.StatsFormat == (cliHas("stats-format") ? cliS("stats-format") : (fileHas("stats-format") ? fileS("stats-format") : (envHas("stats-format") ? envS("stats-format") : old(opts.StatsFormat))))
+//@   exitassert [StatsHTTPAddr] opts.StatsHTTPAddr == (cliHas("stats-http-addr") ? cliS("stats-http-addr") : (fileHas("stats-http-addr") ? fileS("stats-http-addr") : (envHas("stats-http-addr") ? envS("stats-http-addr") : old(opts.StatsHTTPAddr))))
+//@   exitassert [StatsHTTPPort] opts.StatsHTTPPort == (cliHas("stats-http-port") ? cliS("stats-http-port") : (fileHas("stats-http-port") ? fileS("stats-http-port") : (envHas("stats-http-port") ? envS("stats-http-port") : old(opts.StatsHTTPPort))))
+//@   exitassert [SFlowEnabled] opts.SFlowEnabled == (cliHas("sflow-enabled") ? cliB("sflow-enabled") : (fileHas("sflow-enabled") ? fileB("sflow-enabled") : (envHas("sflow-enabled") ? envB("sflow-enabled") : old(opts.SFlowEnabled))))
+//@   exitassert [SFlowPort] opts.SFlowPort == (cliHas("sflow-port") ? cliI("sflow-port") : (fileHas("sflow-port") ? fileI("sflow-port") : (envHas("sflow-port") ? envI("sflow-port") : old(opts.SFlowPort))))
+//@   exitassert [SFlowAddr] opts.SFlowAddr == (cliHas("sflow-addr") ? cliS("sflow-addr") : (fileHas("sflow-addr") ? fileS("sflow-addr") : (envHas("sflow-addr") ? envS("sflow-addr") : old(opts.SFlowAddr))))
+//@   exitassert [SFlowUDPSize] opts.SFlowUDPSize == (cliHas("sflow-max-udp-size") ? cliI("sflow-max-udp-size") : (fileHas("sflow-udp-size") ? fileI("sflow-udp-size") : (envHas("sflow-udp-size") ? envI("sflow-udp-size") : old(opts.SFlowUDPSize))))
+//@   exitassert [SFlowWorkers] opts.SFlowWorkers == (cliHas("sflow-workers") ? cliI("sflow-workers") : (fileHas("sflow-workers") ? fileI("sflow-workers") : (envHas("sflow-workers") ? envI("sflow-workers") : old(opts.SFlowWorkers))))
+//@   exitassert [SFlowTopic] opts.SFlowTopic == (cliHas("sflow-topic") ? cliS("sflow-topic") : (fileHas("sflow-topic") ? fileS("sflow-topic") : (envHas("sflow-topic") ? envS("sflow-topic") : old(opts.SFlowTopic))))
+//@   exitassert [SFlowMirrorAddr] opts.SFlowMirrorAddr == (cliHas("sflow-mirror-addr") ? cliS("sflow-mirror-addr") : (fileHas("sflow-mirror-addr") ? fileS("sflow-mirror-addr") : (envHas("sflow-mirror-addr") ? envS("sflow-mirror-addr") : old(opts.SFlowMirrorAddr))))
+//@   exitassert [SFlowMirrorPort] opts.SFlowMirrorPort == (cliHas("sflow-mirror-port") ? cliI("sflow-mirror-port") : (fileHas("sflow-mirror-port") ? fileI("sflow-mirror-port") : (envHas("sflow-mirror-port") ? envI("sflow-mirror-port") : old(opts.SFlowMirrorPort))))
+//@   exitassert [SFlowMirrorWorkers] opts.SFlowMirrorWorkers == (cliHas("sflow-mirror-workers") ? cliI("sflow-mirror-workers") : (fileHas("sflow-mirror-workers") ? fileI("sflow-mirror-workers") : (envHas("sflow-mirror-workers") ? envI("sflow-mirror-workers") : old(opts.SFlowMirrorWorkers))))
+//@   exitassert [IPFIXEnabled] opts.IPFIXEnabled == (cliHas("ipfix-enabled") ? cliB("ipfix-enabled") : (fileHas("ipfix-enabled") ? fileB("ipfix-enabled") : (envHas("ipfix-enabled") ? envB("ipfix-enabled") : old(opts.IPFIXEnabled))))
+//@   exitassert [IPFIXRPCEnabled] opts.IPFIXRPCEnabled == (cliHas("ipfix-rpc-enabled") ? cliB("ipfix-rpc-enabled") : (fileHas("ipfix-rpc-enabled") ? fileB("ipfix-rpc-enabled") : (envHas("ipfix-rpc-enabled") ? envB("ipfix-rpc-enabled") : old(opts.IPFIXRPCEnabled))))
+//@   exitassert [IPFIXPort] opts.IPFIXPort == (cliHas("ipfix-port") ? cliI("ipfix-port") : (fileHas("ipfix-port") ? fileI("ipfix-port") : (envHas("ipfix-port") ? envI("ipfix-port") : old(opts.IPFIXPort))))
+//@   exitassert [IPFIXAddr] opts.IPFIXAddr == (cliHas("ipfix-addr") ? cliS("ipfix-addr") : (fileHas("ipfix-addr") ? fileS("ipfix-addr") : (envHas("ipfix-addr") ? envS("ipfix-addr") : old(opts.IPFIXAddr))))
+//@   exitassert [IPFIXUDPSize] opts.IPFIXUDPSize == (cliHas("ipfix-max-udp-size") ? cliI("ipfix-max-udp-size") : (fileHas("ipfix-udp-size") ? fileI("ipfix-udp-size") : (envHas("ipfix-udp-size") ? envI("ipfix-udp-size") : old(opts.IPFIXUDPSize))))
+//@   exitassert [IPFIXWorkers] opts.IPFIXWorkers == (cliHas("ipfix-workers") ? cliI("ipfix-workers") : (fileHas("ipfix-workers") ? fileI("ipfix-workers") : (envHas("ipfix-workers") ? envI("ipfix-workers") : old(opts.IPFIXWorkers))))
+//@   exitassert [IPFIXTopic] opts.IPFIXTopic == (cliHas("ipfix-topic") ? cliS("ipfix-topic") : (fileHas("ipfix-topic") ? fileS("ipfix-topic") : (envHas("ipfix-topic") ? envS("ipfix-topic") : old(opts.IPFIXTopic))))
+//@   exitassert [IPFIXMirrorAddr] opts.IPFIXMirrorAddr == (cliHas("ipfix-mirror-addr") ? cliS("ipfix-mirror-addr") : (fileHas("ipfix-mirror-addr") ? fileS("ipfix-mirror-addr") : (envHas("ipfix-mirror-addr") ? envS("ipfix-mirror-addr") : old(opts.IPFIXMirrorAddr))))
+//@   exitassert [IPFIXMirrorPort] opts.IPFIXMirrorPort == (cliHas("ipfix-mirror-port") ? cliI("ipfix-mirror-port") : (fileHas("ipfix-mirror-port") ? fileI("ipfix-mirror-port") : (envHas("ipfix-mirror-port") ? envI("ipfix-mirror-port") : old(opts.IPFIXMirrorPort))))
+//@   exitassert [IPFIXMirrorWorkers] opts.IPFIXMirrorWorkers == (cliHas("ipfix-mirror-workers") ? cliI("ipfix-mirror-workers") : (fileHas("ipfix-mirror-workers") ? fileI("ipfix-mirror-workers") : (envHas("ipfix-mirror-workers") ? envI("ipfix-mirror-workers") : old(opts.IPFIXMirrorWorkers))))
+//@   exitassert [IPFIXTplCacheFile] opts.IPFIXTplCacheFile == (cliHas("ipfix-tpl-cache-file") ? cliS("ipfix-tpl-cache-file") : (fileHas("ipfix-tpl-cache-file") ? fileS("ipfix-tpl-cache-file") : (envHas("ipfix-tpl-cache-file") ? envS("ipfix-tpl-cache-file") : old(opts.IPFIXTplCacheFile))))
+//@   exitassert [NetflowV5Enabled] opts.NetflowV5Enabled == (cliHas("netflow5-enabled") ? cliB("netflow5-enabled") : (fileHas("netflow5-enabled") ? fileB("netflow5-enabled") : (envHas("netflow5-enabled") ? envB("netflow5-enabled") : old(opts.NetflowV5Enabled))))
+//@   exitassert [NetflowV5Port] opts.NetflowV5Port == (cliHas("netflow5-port") ? cliI("netflow5-port") : (fileHas("netflow5-port") ? fileI("netflow5-port") : (envHas("netflow5-port") ? envI("netflow5-port") : old(opts.NetflowV5Port))))
+//@   exitassert [NetflowV5Addr] opts.NetflowV5Addr == (cliHas("netflow5-addr") ? cliS("netflow5-addr") : (fileHas("netflow5-addr") ? fileS("netflow5-addr") : (envHas("netflow5-addr") ? envS("netflow5-addr") : old(opts.NetflowV5Addr))))
+//@   exitassert [NetflowV5UDPSize] opts.NetflowV5UDPSize == (cliHas("netflow5-max-udp-size") ? cliI("netflow5-max-udp-size") : (fileHas("netflow5-udp-size") ? fileI("netflow5-udp-size") : (envHas("netflow5-udp-size") ? envI("netflow5-udp-size") : old(opts.NetflowV5UDPSize))))
+//@   exitassert [NetflowV5Workers] opts.NetflowV5Workers == (cliHas("netflow5-workers") ? cliI("netflow5-workers") : (fileHas("netflow5-workers") ? fileI("netflow5-workers") : (envHas("netflow5-workers") ? envI("netflow5-workers") : old(opts.NetflowV5Workers))))
+//@   exitassert [NetflowV5Topic] opts.NetflowV5Topic == (cliHas("netflow5-topic") ? cliS("netflow5-topic") : (fileHas("netflow5-topic") ? fileS("netflow5-topic") : (envHas("netflow5-topic") ? envS("netflow5-topic") : old(opts.NetflowV5Topic))))
+//@   exitassert [NetflowV9Enabled] opts.NetflowV9Enabled == (cliHas("netflow9-enabled") ? cliB("netflow9-enabled") : (fileHas("netflow9-enabled") ? fileB("netflow9-enabled") : (envHas("netflow9-enabled") ? envB("netflow9-enabled") : old(opts.NetflowV9Enabled))))
+//@   exitassert [NetflowV9Port] opts.NetflowV9Port == (cliHas("netflow9-port") ? cliI("netflow9-port") : (fileHas("netflow9-port") ? fileI("netflow9-port") : (envHas("netflow9-port") ? envI("netflow9-port") : old(opts.NetflowV9Port))))
+//@   exitassert [NetflowV9Addr] opts.NetflowV9Addr == (cliHas("netflow9-addr") ? cliS("netflow9-addr") : (fileHas("netflow9-addr") ? fileS("netflow9-addr") : (envHas("netflow9-addr") ? envS("netflow9-addr") : old(opts.NetflowV9Addr))))
+//@   exitassert [NetflowV9UDPSize] opts.NetflowV9UDPSize == (cliHas("netflow9-max-udp-size") ? cliI("netflow9-max-udp-size") : (fileHas("netflow9-udp-size") ? fileI("netflow9-udp-size") : (envHas("netflow9-udp-size") ? envI("netflow9-udp-size") : old(opts.NetflowV9UDPSize))))
+//@   exitassert [NetflowV9Workers] opts.NetflowV9Workers == (cliHas("netflow9-workers") ? cliI("netflow9-workers") : (fileHas("netflow9-workers") ? fileI("netflow9-workers") : (envHas("netflow9-workers") ? envI("netflow9-workers") : old(opts.NetflowV9Workers))))
+//@   exitassert [NetflowV9Topic] opts.NetflowV9Topic == (cliHas("netflow9-topic") ? cliS("netflow9-topic") : (fileHas("netflow9-topic") ? fileS("netflow9-topic") : (envHas("netflow9-topic") ? envS("netflow9-topic") : old(opts.NetflowV9Topic))))
+//@   exitassert [NetflowV9TplCacheFile] opts.NetflowV9TplCacheFile == (cliHas("netflow9-tpl-cache-file") ? cliS("netflow9-tpl-cache-file") : (fileHas("netflow9-tpl-cache-file") ? fileS("netflow9-tpl-cache-file") : (envHas("netflow9-tpl-cache-file") ? envS("netflow9-tpl-cache-file") : old(opts.NetflowV9TplCacheFile))))
+//@   exitassert [ProducerEnabled] opts.ProducerEnabled == (cliHas("producer-enabled") ? cliB("producer-enabled") : (fileHas("producer-enabled") ? fileB("producer-enabled") : (envHas("producer-enabled") ? envB("producer-enabled") : old(opts.ProducerEnabled))))
+//@   exitassert [MQName] opts.MQName == (cliHas("mqueue") ? cliS("mqueue") : (fileHas("mq-name") ? fileS("mq-name") : (envHas("mq-name") ? envS("mq-name") : old(opts.MQName))))
+//@   exitassert [MQConfigFile] opts.MQConfigFile == (cliHas("mqueue-conf") ? cliS("mqueue-conf") : (fileHas("mq-config-file") ? fileS("mq-config-file") : (envHas("mq-config-file") ? envS("mq-config-file") : old(opts.MQConfigFile))))
+//@   opt registered CPUCap=cpu-cap DynWorkers=dynamic-workers IPFIXAddr=ipfix-addr IPFIXEnabled=ipfix-enabled IPFIXMirrorAddr=ipfix-mirror-addr IPFIXMirrorPort=ipfix-mirror-port IPFIXMirrorWorkers=ipfix-mirror-workers IPFIXPort=ipfix-port IPFIXRPCEnabled=ipfix-rpc-enabled IPFIXTopic=ipfix-topic IPFIXTplCacheFile=ipfix-tpl-cache-file IPFIXUDPSize=ipfix-max-udp-size IPFIXWorkers=ipfix-workers LogFile=log-file MQConfigFile=mqueue-conf MQName=mqueue NetflowV5Addr=netflow5-addr NetflowV5Enabled=netflow5-enabled NetflowV5Port=netflow5-port NetflowV5Topic=netflow5-topic NetflowV5UDPSize=netflow5-max-udp-size NetflowV5Workers=netflow5-workers NetflowV9Addr=netflow9-addr NetflowV9Enabled=netflow9-enabled NetflowV9Port=netflow9-port NetflowV9Topic=netflow9-topic NetflowV9TplCacheFile=netflow9-tpl-cache-file NetflowV9UDPSize=netflow9-max-udp-size NetflowV9Workers=netflow9-workers PIDFile=pid-file ProducerEnabled=producer-enabled SFlowAddr=sflow-addr SFlowEnabled=sflow-enabled SFlowMirrorAddr=sflow-mirror-addr SFlowMirrorPort=sflow-mirror-port SFlowMirrorWorkers=sflow-mirror-workers SFlowPort=sflow-port SFlowTopic=sflow-topic SFlowUDPSize=sflow-max-udp-size SFlowWorkers=sflow-workers StatsEnabled=stats-enabled StatsFormat=stats-format StatsHTTPAddr=stats-http-addr StatsHTTPPort=stats-http-port Verbose=verbose
+//@   opt noreplay flagSet reads the process environment, the file system and os.Args
+//@   modifies opts
+// <<< generated
